@@ -1007,8 +1007,8 @@ mod api {
                 let r = std::panic::catch_unwind(std::panic::AssertUnwindSafe(|| { let a = s.typ(w).unwrap(); s.finish(); a }));
                 let b = fresh.typ(w).unwrap(); fresh.finish();
                 match r {
-                    Ok(a) => if !same(&a, &b) { o.fail(json!({"clause": "C11 edited user auto-correct list is honoured for every word after update_engine", "edit": name, "before": before, "after": after, "history": s.history(), "observed": show(&a), "expected": show(&b)})); },
-                    Err(_) => { o.fail(json!({"clause": "C11 edited user auto-correct list is honoured for every word after update_engine", "edit": name, "before": before, "after": after, "history": s.history(), "observed": "panic", "expected": show(&b)})); break; }
+                    Ok(a) => if !same(&a, &b) { o.fail(json!({"clause": format!("{} edited user auto-correct list is honoured for every word after update_engine (a damaged or removed file counts as absent)", if name == "damage" || name == "remove file" { "C10 C11" } else { "C11" }), "edit": name, "before": before, "after": after, "history": s.history(), "observed": show(&a), "expected": show(&b)})); },
+                    Err(_) => { o.fail(json!({"clause": format!("{} edited user auto-correct list is honoured for every word after update_engine (a damaged or removed file counts as absent)", if name == "damage" || name == "remove file" { "C10 C11" } else { "C11" }), "edit": name, "before": before, "after": after, "history": s.history(), "observed": "panic", "expected": show(&b)})); break; }
                 }
             }
             o.nontrivial += 1;
